@@ -229,7 +229,16 @@ def c_string(ctx, case):
     try:
         node = ast.parse(s, mode="eval")
         before = ast.dump(node)
+        from .c13 import _refused_imports
+        prob = _refused_imports(ctx)      # ... after imports that were refused and caught
+        if prob:
+            ctx.fail("C07.string", case, "importer:after-refused-import", prob)
         imp = ASTToPymbolic()(node.body)
+        stray = [n_ for n_ in G.variables_of(imp) if n_.startswith("zz_") and n_ not in s]
+        if stray:
+            ctx.fail("C07.string", case, "importer:names-from-elsewhere",
+                     f"{s!r}: the importer gives {imp!r}, which mentions {sorted(stray)} -- names of "
+                     f"imports that were refused (and caught) earlier")
         # "Python's parse of the same string" is the caller's: the importer reads it, so that
         # a second import of the same ast object (same or another importer) gives the same tree
         imp2 = ASTToPymbolic()(node.body)
@@ -361,6 +370,50 @@ def c_reentrant(ctx, case):
             ctx.fail("C07.reentrant", case, f"reentrant:{want[0]}->{g[0]}",
                      f"{s!r} with macros {MACROS} expanded by re-entering the parser ({which}): "
                      f"{short(g)}; the written-out text {flat!r} gives {short(want)}")
+            return
+
+
+@check("C07.manyrefusals")
+def c_manyrefusals(ctx, case):
+    """MANY refused inputs in a row on the one module-level parser -- each left off with brackets
+    open, a call or a subscript unfinished; among them one nested far too deeply -- and then
+    valid strings again: the same trees as before, whatever accumulated."""
+    (n_refused,) = case
+    valid = ["(x + 1) * y", "(((x + 1) * y) - 2)", "f((x, 1), (y))", "m[(x + 1) * (y - (2))]", "((((((x))))))",
+             "[x, (y, [z])]" if False else "(x, (y, (z,)))"]
+    before = [repr(parse(s)) for s in valid]
+    opened = ["((((((((x + ", "(x y)", "f((x, 1)", "((x)) + (((y", "m[(x + (y", "(((((((((((((((((x", "f(g(h((x",
+              "(x +", "((1, 2), (3", "(" * 40 + "x"]
+    refused = 0
+    for i in range(n_refused):
+        try:
+            parse(opened[i % len(opened)])
+        except RecursionError:
+            refused += 1
+        except Exception:  # noqa: BLE001
+            refused += 1
+    for deep in ("(" * 3000 + "x" + ")" * 3000, "(" * 5000 + "x"):
+        try:
+            parse(deep)
+        except RecursionError:
+            refused += 1
+        except Exception:  # noqa: BLE001
+            refused += 1
+    ctx.case(None)
+    ctx.count("refused_inputs_in_a_row", refused)
+    for s, b in zip(valid, before):
+        try:
+            after = repr(parse(s))
+        except RecursionError:
+            raise
+        except Exception as ex:  # noqa: BLE001
+            ctx.fail("C07.manyrefusals", case, f"refused-after-refusals:{type(ex).__name__}",
+                     f"after {refused} refused inputs (brackets left open, one nested 3000 deep) the "
+                     f"valid {s!r} is refused: {type(ex).__name__}: {ex}")
+            return
+        if after != b:
+            ctx.fail("C07.manyrefusals", case, "tree-changed-after-refusals",
+                     f"after {refused} refused inputs {s!r} parses to {after}, before: {b}")
             return
 
 
@@ -689,6 +742,18 @@ def workload(ctx):
                     ctx.case(("s", s), True, n=0)
                     ctx.count("repeated_operand_strings")
                     ctx.run("C07.string", (s, ctx.seed))
+        # equal numbers of different kinds in ONE string, in both orders (1 and 1.0, 2 and 2.0,
+        # 0 and 0.0): each literal is the kind it is written as
+        for a, b in (("1", "1.0"), ("2", "2.0"), ("0", "0.0"), ("3", "3e0"), ("10", "1e1"), ("2", "2.")):
+            for shape in ("x*{a} + (y << {b})", "(y << {a}) + x*{b}", "({a}, {b})", "f({a}, {b})", "({a}, x + {b}, {a}, {b})",
+                          "m[{a}] + {b}", "{a} + x*{b}", "x**{a} - y**{b} + (z >> {a})", "({a} if x < {b} else {b}, {a})",
+                          "(y & {a}) + x / {b}", "f(k={a}, j={b})", "{a} // x + {b} // x"):
+                for u, v in ((a, b), (b, a)):
+                    s = shape.replace("{a}", u).replace("{b}", v)
+                    if ctx.mine("literal-kinds"):
+                        ctx.case(("s", s), True, n=0)
+                        ctx.count("equal_literals_of_two_kinds")
+                        ctx.run("C07.string", (s, ctx.seed))
         # trailing commas wherever Python allows one (calls with and without keywords, tuples,
         # subscripts), and where it does not
         for s in ["f(k=a,)", "f(a, k=b,)", "f(a, b, k=c, j=a+b,)", "f(a,)", "f(a, b,)", "(a, b,)", "(a,)",
@@ -733,6 +798,10 @@ def workload(ctx):
             if ctx.mine("reentrant"):
                 ctx.case(("reentrant", s), True, n=0)
                 ctx.run("C07.reentrant", (s,))
+        for nref in (30, 120, 400):
+            if ctx.mine("manyrefusals"):
+                ctx.case(("manyrefusals", nref), True, n=0)
+                ctx.run("C07.manyrefusals", (nref,))
         for s in GARBAGE:
             if ctx.mine("garbage"):
                 ctx.case(("g", s), True, n=0)
@@ -764,6 +833,8 @@ def workload(ctx):
             ctx.count("handler:" + k, v)
     ctx.floor("respelled:dense", 500)
     ctx.floor("reentrant_parses", 25)
+    ctx.floor("refused_inputs_in_a_row", 500)
+    ctx.floor("equal_literals_of_two_kinds", 100)
     ctx.floor("tower_strings", 200)
     ctx.floor("trailing_comma_strings", 15)
     ctx.floor("importer_ast_with_shared_nodes", 300)
